@@ -1,11 +1,11 @@
 """C15 - seeded randomness is reproducible and random grains are valid."""
 from C05 import BASE
-TUS = ['c15.cc'] + BASE + ['features/%s_models/grains/interface' % f for f in ('continental_plate', 'oceanic_plate', 'mantle_layer', 'plume')] + ['features/continental_plate_models/composition/interface']
+TUS = ['c15.cc'] + BASE + ['features/%s_models/grains/interface' % f for f in ('continental_plate', 'oceanic_plate', 'mantle_layer', 'plume', 'fault', 'subducting_plate')] + ['features/continental_plate_models/composition/interface']
 ST = ['uniform_real_distribution<double>::operator() specialised to a fresh value u in [0,1) scaled to [a,b) (randomness = arbitrary value of its contract); the Mersenne Twister itself is outside',
       'sin/cos/sqrt uninterpreted with axioms sin^2+cos^2=1 (same argument), sqrt(x)=r: r>=0, r^2=x', 'Parameters API stub']
 def ob(id, entry, cases, expect, bounds, **kw):
     d = dict(id=id, harness='c15.cc', entry=entry, mode='real', cases=cases, expect=expect, bounds=bounds, tus=TUS, stubs=ST, native=True, assumes=['exact-real reading'],
-             outside=['MT19937 (seeding, stream, "different seeds give different draws")', 'the fault / subducting plate families (same code pattern, different call signature; not instantiated); the deflected variant is covered by C15.size.deflected (sizes only)'])
+             outside=['MT19937 (seeding, stream, "different seeds give different draws")', 'the fault / subducting plate families are covered by C15.size.line and the deflected variant by C15.size.deflected (sizes only)'])
     d.update(kw); return d
 from C01 import TUS as T1
 WP_TUS = ['world_parse.cc'] + T1[1:]
@@ -21,6 +21,9 @@ OBLIGATIONS = [
     ob('C15.size', 'h_c15_grains', [(k, 1, f, n) for f in range(3) for (k, n) in ((1, 1), (2, 1), (2, 2))], ['grain count is preserved', 'normalised grain sizes sum to one', 'fixed grain sizes are returned as given', 'random grain sizes lie in [0,1)', 'end'], '1..2 grains (3 thorough), 1..2 listed compositions with arbitrary labels, continental / oceanic / mantle-layer families', cases_thorough=[(k, 1, f, n) for f in range(3) for (k, n) in ((1, 1), (2, 1), (2, 2), (3, 2))]),
     ob('C15.size.deflected', 'h_c15_deflected', [(k, f, n) for f in range(4) for (k, n) in ((1, 1), (2, 2))], ['grain count is preserved', 'normalised grain sizes sum to one', 'fixed grain sizes are returned as given', 'random grain sizes lie in [0,1)', 'end'],
        '"random uniform distribution deflected": 1..2 grains, 1..2 listed compositions with arbitrary labels, continental / oceanic / mantle-layer / plume families; deflections and basis matrices arbitrary accepted values', cases_thorough=[(k, f, n) for f in range(4) for (k, n) in ((1, 1), (2, 1), (2, 2), (3, 2))],
-       outside=['MT19937 (seeding, stream, "different seeds give different draws")', 'the orientation of the deflected variant (only its sizes and draw count are asserted)', 'the fault / subducting plate families (same code pattern, different call signature; not instantiated)']),
+       outside=['MT19937 (seeding, stream, "different seeds give different draws")', 'the orientation of the deflected variant (only its sizes and draw count are asserted)', 'the fault / subducting plate families: C15.size.line']),
+    ob('C15.size.line', 'h_c15_line', [(k, f, n) for f in range(4) for (k, n) in ((1, 1), (2, 2))], ['grain count is preserved', 'normalised grain sizes sum to one', 'fixed grain sizes are returned as given', 'random grain sizes lie in [0,1)', 'end'],
+       'fault and subducting-plate families, "random uniform distribution" and its deflected variant: 1..2 grains, 1..2 listed compositions with arbitrary labels; arbitrary distance from the plane within the model range', cases_thorough=[(k, f, n) for f in range(4) for (k, n) in ((1, 1), (2, 1), (2, 2), (3, 2))],
+       outside=['MT19937 (seeding, stream, "different seeds give different draws")', 'the orientations of these variants (only sizes and draw count are asserted; the rotation identities are C15.rot on the continental class)']),
     ob('C15.comp', 'h_c15_composition', [()], ['one draw per random composition', 'random composition lies within its configured bounds', 'end'], 'all bounds with max > min'),
 ]
